@@ -197,6 +197,11 @@ func (k *Contract) mentions(p string) bool {
 			return true
 		}
 	}
+	for _, cl := range k.Exhaustive {
+		if hasProp(cl.Props, p) {
+			return true
+		}
+	}
 	for _, cls := range k.CallAsserts {
 		for _, cl := range cls {
 			if hasProp(cl.Props, p) {
@@ -286,6 +291,7 @@ func cmdCheck(g *Gen, prop, tier, evid, replayDir, knownPath string, loadSecs fl
 		}
 	}
 	obs = append(obs, g.globalObligations(prop)...)
+	obs = append(obs, g.callerObligations(prop)...)
 	if g.recoverProps[prop] {
 		obs = append(obs, g.recoverObligations(prop)...)
 	}
